@@ -81,6 +81,7 @@ def applyEv (M : Nat) (s : Set) : Ev → Set × Option Err
   incr := fun c es => ∃ p : List (Nat × Unit), p.Perm c ∧ es = p.map (fun kv => Ev.set kv.1)
   inheritDone := true
   good := fun _ => True
+  idle := fun | .extend [] => true | _ => false
 
 theorem foldl_sorted {α : Type} (step : Set × List Ev → α → Set × List Ev)
     (hstep : ∀ acc x, ASorted acc.1 → ASorted (step acc x).1) (xs : List α) :
